@@ -385,6 +385,9 @@ def sibling_view(rr, info):
         # the index of a release routine in the library's destructor table is a sequence number over the whole library:
         # it moves consistently when another declaration gains or loses a routine (not a change of this declaration)
         text = re.sub(r"(idtor\s*=\s*)\d+", r"\1N", text)
+        text = re.sub(r"(ShroudStrToArray\([^;]*?,\s*)\d+(\s*\);)", r"\1N\2", text)
+        text = re.sub(r"(_to_Object_idtor\([^;]*?,\s*)\d+(\s*\);)", r"\1N\2", text)
+        text = re.sub(r"(SHROUD_(?:release_memory|fetch_context)\(\s*)\d+", r"\1N", text)
         low = text.lower()
         lines = [ln for ln in low.split("\n") if any(o in ln for o in others) and me not in ln]
         blocks = {n_: b_ for n_, b_ in extract_blocks(text).items() if any(o in n_.lower() for o in others) and me not in n_.lower()}
